@@ -36,6 +36,9 @@ type Plan struct {
 	NotCovered  []string
 	Note        string
 	Bounded     func(tier string, seed int64) []BoundedResult
+	// Keep: when set, only the obligations it accepts belong to this property (C18: the frame and ownership
+	// obligations of functions whose other obligations belong to other properties)
+	Keep func(o *Obligation) bool
 }
 
 type BoundedResult struct {
@@ -160,6 +163,7 @@ func cmdProp(args []string) {
 	}
 	var results []*FuncResult
 	assumptions := map[string]bool{}
+	frameChecks := 0
 	srcHash := map[string]string{}
 	usedRing := map[string]bool{}
 	for _, tags := range tagOrder {
@@ -268,6 +272,7 @@ func cmdProp(args []string) {
 		for a := range v.assumptions {
 			assumptions[a] = true
 		}
+		frameChecks += v.frameChecks
 		for k := range v.ringUsed {
 			usedRing[k] = true
 		}
@@ -276,6 +281,11 @@ func cmdProp(args []string) {
 
 	// ---- aggregate ----
 	total, discharged, trivial := 0, 0, 0
+	if plan.Keep != nil {
+		// every store and every callee frame that was checked against a modifies clause and found inside it
+		// counts as a frame obligation decided during VC generation
+		trivial = frameChecks
+	}
 	bySolver := map[string]int{}
 	solverSec := 0.0
 	var funcs, notCovered, assumedFns []string
@@ -304,9 +314,14 @@ func cmdProp(args []string) {
 			continue
 		}
 		funcs = append(funcs, label)
-		trivial += r.Trivial
+		if plan.Keep == nil {
+			trivial += r.Trivial
+		}
 		for _, o := range r.Obls {
 			if o.Result == nil {
+				continue
+			}
+			if plan.Keep != nil && !o.MustFail && !plan.Keep(o) {
 				continue
 			}
 			if o.MustFail {
@@ -542,6 +557,7 @@ func cmdProp(args []string) {
 			"explanation":               plan.Note,
 			"ring_interpretations_used": sortedKeys(usedRing),
 			"concrete_cross_check":      cross,
+			"frame_writes_checked":      frameChecks,
 		},
 		"assumptions": as,
 		"wall_s":      round3(time.Since(t0).Seconds()),
